@@ -11,15 +11,12 @@ for log in sorted(glob.glob(res_dir + '/*.log')):
     m = re.match(r'== (C\d+)/(\S+)', txt)
     if not m: continue
     prop, n = m.group(1), m.group(2)
-    tag = os.path.basename(log)[:-4]
-    src = None
-    for pat, r in rounds:
-        d = (pat % prop) + '/' + n.split('-')[-1]
-        if os.path.isdir(d) and (r in tag or (r == 'r1' and '-r2' not in tag)):
-            src = d; rnd = r
-    if '-r2' in tag:
-        src = ('/tmp/mut/%s-out2/' % prop) + n; rnd = 'r2'
-    if not src or not os.path.exists(src + '/patch.diff'): continue
+    tag = os.path.basename(log)[:-4]            # e.g. C01-out-1 / C01-out2-1
+    mm = re.match(r'(C\d+)-(out2?)-(\d+)$', tag)
+    if not mm: continue
+    rnd = 'r2' if mm.group(2) == 'out2' else 'r1'
+    src = '/tmp/mut/%s-%s/%s' % (mm.group(1), mm.group(2), mm.group(3))
+    if not os.path.exists(src + '/patch.diff'): continue
     suite = re.search(r'suite_with_change=\[(.*?)\]', txt)
     withc = re.search(r'demo_with_change_exit=(\d+)', txt)
     without = re.search(r'demo_without_change_exit=(\d+)', txt)
@@ -28,11 +25,13 @@ for log in sorted(glob.glob(res_dir + '/*.log')):
     ok = suite and suite.group(1).startswith('365 passed 0 failed') and withc and withc.group(1) != '0' and without and without.group(1) == '0'
     if not ok:
         print('NOT KEPT', tag, suite and suite.group(1), withc and withc.group(1), without and without.group(1)); continue
-    ident = f'{prop}-{rnd}-{n.split("-")[-1]}'
+    ident = f'{prop}-{rnd}-{mm.group(3)}'
     dst = f'/verif/seeded/{ident}'
     os.makedirs(dst, exist_ok=True)
     shutil.copy(src + '/patch.diff', dst + '/patch.diff')
     shutil.copy(src + '/demo.rs', dst + '/demo.rs')
+    ported = os.path.exists(src + '/patch.orig.diff')
+    if ported: shutil.copy(src + '/patch.orig.diff', dst + '/patch.as-written.diff')
     readme = open(src + '/README.md').read() if os.path.exists(src + '/README.md') else ''
     first = next((l.strip('# ').strip() for l in readme.splitlines() if l.strip()), '')
     needs = ''
@@ -47,6 +46,7 @@ for log in sorted(glob.glob(res_dir + '/*.log')):
         'breaks_property': prop,
         'written_by': 'independent sub-agent given only the property text and a scratch worktree (round %s)' % rnd[1],
         'summary': first[:400],
+        'ported': ('patch.diff was ported by hand to the tree after fix d5ee576 (the statements it edits were rewritten by that fix); patch.as-written.diff is the sub-agent\'s original against 4763285' if ported else None),
         'needs_to_manifest': needs,
         'confirmed_in_scratch_worktree': {
             'test_suite_with_change': suite.group(1),
